@@ -479,7 +479,7 @@ func init() {
 	ext[symPkg+"Byte"] = func(fr *frame, a []value) value {
 		i := fr.i
 		name := i.cstr(a[0], "sym.Byte")
-		return i.freshVar("b_"+smtName(name), 8, "", 0)
+		return i.freshVarNamed(name, "b_"+smtName(name), 8)
 	}
 	ext[symPkg+"Bool"] = func(fr *frame, a []value) value {
 		i := fr.i
